@@ -1,1 +1,29 @@
-// access to private items of the parent module (compiled only under --cfg rustdds_verif)
+// access to private items of dds/with_key/simpledatareader.rs
+use super::*;
+
+impl<D: Keyed, DA: DeserializerAdapter<D>> SimpleDataReader<D, DA> {
+  pub(crate) fn verif_digest(&self) -> String {
+    let rs = self.read_state.lock().unwrap();
+    format!(
+      "RS latest=@{}@ last_read={:?} keys={}",
+      rs.latest_instant.to_ticks(),
+      rs.last_read_sn
+        .iter()
+        .map(|(g, s)| format!("{:?}:{}", g.prefix, i64::from(*s)))
+        .collect::<Vec<_>>(),
+      rs.hash_to_key_map.len()
+    )
+  }
+  pub(crate) fn verif_last_read(&self) -> Vec<(GUID, i64)> {
+    let rs = self.read_state.lock().unwrap();
+    rs.last_read_sn.iter().map(|(g, s)| (*g, i64::from(*s))).collect()
+  }
+  pub(crate) fn verif_notifications_pending(&self) -> usize {
+    let rx = self.notification_receiver.lock().unwrap();
+    let mut n = 0;
+    while rx.try_recv().is_ok() {
+      n += 1;
+    }
+    n
+  }
+}
